@@ -72,7 +72,7 @@ func (xp xpathImpl) resolveExpression(name string, e xpath.Expression, sel *Sele
 	case *xpath.Operator:
 		return xp.resolveOperator(x, name, sel)
 	}
-	panic("unknown xpath expression")
+	return false, fmt.Errorf("%w. xpath on leaf '%s' needs a comparison", fc.BadRequestError, name)
 }
 
 func (xp xpathImpl) resolveOperator(oper *xpath.Operator, ident string, s *Selection) (bool, error) {
@@ -119,7 +119,7 @@ func (xp xpathImpl) resolveOperator(oper *xpath.Operator, ident string, s *Selec
 			return c <= 0, nil
 		}
 	}
-	panic("unrecognized operator: " + oper.Oper)
+	return false, fmt.Errorf("%w. unrecognized operator: %s", fc.BadRequestError, oper.Oper)
 }
 
 func (xp xpathImpl) resolveAbsolutePath(s *Selection) (*Selection, error) {
